@@ -68,14 +68,17 @@ def main():
     tier = "quick"
     only = None
     extra = None
+    rnd = ""
     for i, a in enumerate(sys.argv):
+        if a == "--round":
+            rnd = sys.argv[i + 1]
         if a == "--tier":
             tier = sys.argv[i + 1]
         if a == "--only":
             only = sys.argv[i + 1]
         if a == "--checks":
             extra = sys.argv[i + 1].split(",")
-    args = [a for a in args if a not in (tier, only) and (not extra or a != ",".join(extra))]
+    args = [a for a in args if a not in (tier, only, rnd) and (not extra or a != ",".join(extra))]
     results = []
     for src in args:
         if os.path.exists(os.path.join(src, "patch.diff")):
@@ -89,7 +92,7 @@ def main():
         for patch, demo, metaf, sid in items:
             meta = json.load(open(metaf))
             if sid is None:
-                sid = f"{meta['property']}-{os.path.basename(patch).split('.')[0]}"
+                sid = f"{meta['property']}-{rnd}{os.path.basename(patch).split('.')[0]}"
             if only and not sid.startswith(only):
                 continue
             r = evaluate(patch, demo, meta, sid, tier, extra)
